@@ -91,6 +91,13 @@ def nesting_sweeps():
     for n in (998, 999, 1000, 1001, 1002):
         for item in ("1", "f", "d4", "'s'", "[1]"):
             out.append("[" + ", ".join([item] * n) + "]")
+    # rejected sources whose offending line is long in BYTES but short in characters (and the other way round): the error text quotes
+    # and truncates that line; 2-, 3- and 4-byte characters, the error on the first / a later line, every unclosed bracket
+    for ch in ("力", "é", "😀", "ｈ", "a"):
+        for k in (18, 21, 25, 30, 40, 56, 57, 58, 61, 80):
+            name = ch * k if ch != "😀" else "x" + ch * k
+            for shape in ("(" + name + " +", "[1, " + name + " ,", "(1 +\n" + name + " + (", "{'k': " + name, "^st" + name + "(", "`{" + name + " +"):
+                out.append(shape if ch != "😀" else shape.replace("x" + ch * k, "'" + ch * k + "' + ("))
     # shared sub-structure (a DAG, not a cycle): every step costs a handful of operations and doubles the TREE unfolding of the
     # value; printing (result text, repr, process text, templates, toStr) must stay proportional to the object graph
     for k in (3, 12, 30, 60):
@@ -195,7 +202,7 @@ def describe(c):
 def run(res, tier, seed):
     common.build_harness()
     rnd = random.Random(seed)
-    n = 5000 if tier == "quick" else 60000
+    n = 6500 if tier == "quick" else 60000
     corpus = pegcases.scrape_test_sources()
     cases = make_cases(rnd, n, corpus)
     results = run_all(cases)
